@@ -15,7 +15,7 @@
    model (and replayed on the implementation by checks/c18.py). *)
 From DtlsV Require Import Lib.Bytes Gen.Generated Codec.C18Comb Codec.C18CombSound
   Codec.C18Rec Codec.C18RecSound Codec.C18Hs Codec.C18HsSound Codec.C18Rec13 Codec.C18Rec13Sound
-  Codec.C18Ext Codec.C18ExtSound Codec.C18Run.
+  Codec.C18Ext Codec.C18ExtSound Codec.C18Kx Codec.C18KxSound Codec.C18Run.
 Open Scope N_scope.
 
 (* ================================================================== the combinator library *)
@@ -325,6 +325,40 @@ Theorem C18_handshake_fragment_reencode_refuted :
   exists b x, bytes_ok b = true /\ hs_unmarshal 0 b = Some x /\ hs_marshal x = None.
 Proof. exact hs_fragment_reencode_refuted. Qed.
 Print Assumptions C18_handshake_fragment_reencode_refuted.
+
+(* ================================================================== ServerKeyExchange, CertificateRequest *)
+
+(* ServerKeyExchange under every key-exchange context: value-level round trip on its domain *)
+Theorem C18_server_key_exchange : forall kx, wsound (w_ske kx).
+Proof. exact ske_roundtrip. Qed.
+Print Assumptions C18_server_key_exchange.
+
+(* ... but the decoder accepts more than the encoder can reproduce *)
+Theorem C18_server_key_exchange_fixpoint_refuted :
+  exists b x e, bytes_ok b = true /\ ske_dec 4 b = Some x /\ ske_enc x = Some e /\ ske_dec 4 e = None.
+Proof. exact ske_fixpoint_refuted. Qed.
+Print Assumptions C18_server_key_exchange_fixpoint_refuted.
+
+Theorem C18_server_key_exchange_reencode_refuted :
+  (exists b x, bytes_ok b = true /\ ske_dec 4 b = Some x /\ ske_enc x = None) /\
+  (exists b x, bytes_ok b = true /\ ske_dec 4 b = Some x /\ ske_enc x = None /\
+               fst (snd (snd (snd (snd (snd x))))) = 0).
+Proof. exact ske_reencode_refuted. Qed.
+Print Assumptions C18_server_key_exchange_reencode_refuted.
+
+Theorem C18_server_key_exchange_trunc_refuted :
+  exists x e k, ske_wf 4 x = true /\ ske_enc x = Some e /\ (k < length e)%nat /\ ske_dec 4 (firstn k e) <> None.
+Proof. exact ske_trunc_refuted. Qed.
+Print Assumptions C18_server_key_exchange_trunc_refuted.
+
+Theorem C18_certificate_request : wsound w_certreq.
+Proof. exact certreq_roundtrip. Qed.
+Print Assumptions C18_certificate_request.
+
+Theorem C18_certificate_request_declared_length_refuted :
+  exists b x, bytes_ok b = true /\ cr_dec b = Some x /\ b = [0; 0; 1; 4; 0; 0] /\ fst (snd x) = [(4, 0)].
+Proof. exact certreq_declared_length_refuted. Qed.
+Print Assumptions C18_certificate_request_declared_length_refuted.
 
 (* ================================================================== extensions *)
 
